@@ -27,7 +27,7 @@ PRELUDE = """
 LIMIT = 2
 
 LEAVES = ["emit", "cap0", "inv0", "cap1", "inv1", "raise", "raisec", "readp", "readq"]
-INNERS = ["dw", "param", "paramq", "h-ret", "h-esc0", "h-reraise", "g-match", "g-nomatch"]
+INNERS = ["dw", "dw-raise", "param", "paramq", "h-ret", "h-esc0", "h-reraise", "g-match", "g-nomatch"]
 
 
 LEAVES_SMALL = ["emit", "cap0", "inv0", "raise", "raisec", "readp"]
@@ -68,7 +68,7 @@ def flat(seq):
             yield nd
 
 
-def depth(seq, kinds=("dw",)):
+def depth(seq, kinds=("dw", "dw-raise")):
     d = 0
     for nd in seq:
         if isinstance(nd, tuple):
@@ -98,7 +98,7 @@ def valid(seq):
 def _no_empty(seq):
     for nd in seq:
         if isinstance(nd, tuple):
-            if not nd[1] and nd[0] != "dw":
+            if not nd[1] and nd[0] not in ("dw", "dw-raise"):
                 return False
             if not _no_empty(nd[1]):
                 return False
@@ -141,7 +141,11 @@ class Renderer:
         kind, inside = nd
         body = self.seq(inside)
         if kind == "dw":
-            return "(dynamic-wind (lambda () (obs 'in%d)) (lambda () %s) (lambda () (obs 'out%d)))" % (i, body, i)
+            # the thunks also record the parameter value they see: the dynamic environment of the dynamic-wind call
+            return "(dynamic-wind (lambda () (obs (list 'in%d (p)))) (lambda () %s) (lambda () (obs (list 'out%d (p)))))" % (i, body, i)
+        if kind == "dw-raise":
+            # the after thunk raises: during an escape this must not re-run the thunk
+            return "(dynamic-wind (lambda () (obs 'in%d)) (lambda () %s) (lambda () (obs 'out%d) (raise 'after%d)))" % (i, body, i, i)
         if kind == "param":
             return "(parameterize ((p 'p%d)) %s)" % (i, body)
         if kind == "paramq":
